@@ -11,7 +11,7 @@ import numpy as np
 
 from pymablock.series import BlockSeries, zero
 
-NMAX = 6  # orders tabulated by the oracle
+NMAX = 8  # orders tabulated by the oracle (boxes, incl. the widened thorough ones, stay below)
 
 
 def _absent(index):
